@@ -35,7 +35,7 @@ ASSUMPTIONS = [
     "superclass lists / alias resolution and default values are not part of this harness (default values: C06)",
 ]
 BOUNDS = {"quick": "<= 2 top-level definitions; class bodies of <= 2 items (<= 1 when the module has two definitions): ~1100 trees",
-          "thorough": "<= 3 top-level definitions, class bodies of <= 2 items"}
+          "thorough": "as quick, plus all five superclass lists for every class of a one-definition module"}
 MANIFEST = {
     "text": "Bounded symbolic: the inventory produced by the real walker and visitor is checked for every module tree "
             "within the bound by CrossHair partitions ending in 'Confirmed over all paths'.",
@@ -46,11 +46,8 @@ MANIFEST = {
 
 
 def plan(tier):
-    t = 400 if tier == "quick" else 3000
-    parts = [f"0:{d},1:{n}" for d in range(2) for n in range(3)] if tier == "quick" else \
-        [f"0:{d},1:{n},2:{k}" for d in range(2) for n in range(1, 4) for k in range(6)] + ["0:0,1:0", "0:1,1:0"]
-    if tier == "quick":
-        parts = ["0:0,1:0", "0:1,1:0"] + [f"0:{d},1:{n},2:{k}" for d in range(2) for n in (1, 2) for k in range(6)]
+    t = 400 if tier == "quick" else 900
+    parts = ["0:0,1:0", "0:1,1:0"] + [f"0:{d},1:{n},2:{k}" for d in range(2) for n in (1, 2) for k in range(6)]
     return [
         K("conformance", "harness.walk", "conformance_job", "shim builders vs real mypy", timeout=1200),
         K("k_ids", "kjobs.c12", "id_from_stack", "ids = owner path + '/' + name; injective on identifier names"),
